@@ -17,6 +17,7 @@ ENVS = {"jit": {}, "vm": {"SONIC_ENCODER_USE_VM": "1"}}
 class C12(Spec):
     prop = "C12"
     lean_modules = ["SonicSpec.Props.C12"]
+    extra_generated = ["X86.lean"]   # go/factx_x86: per opcode what the JIT and the VM call / test (backends_dispatch_same_helpers)
     needs_factx = True   # Model/Ir.lean reads MaxStack / MAX_ILBUF / MAX_FIELDS / DefaultMaxInlineDepth from Generated/Consts
     rule = ("the C03/C04 value generators under ConfigStd, the default word and a random option word, each case run by a JIT worker "
             "and by a SONIC_ENCODER_USE_VM=1 worker; non-trivial when the type has a constructor, the value is a float or a string "
